@@ -21,7 +21,7 @@ TRUSTED = [
 
 HEAD = ["from Reduino.Displays import LCD", "from Reduino.Communication import SerialMonitor"]
 ALPHA = "abcdefghijklmnopqrstuvwxyzABCDEFGHIJKLMNOPQRSTUVWXYZ0123456789 .,:;!?+-*_"
-ALIGNS = ["left", "center", "right"]
+ALIGNS = ["left", "center", "right", "left", "center", "right", "Center", "RIGHT", "Left", "cEnTer"]   # keywords are case-insensitive on both sides; the model is given the lower-case form
 STYLES = ["block", "hash", "pipe", "dot"]
 
 
@@ -56,7 +56,7 @@ def gen_case(rng, in_range=True):
             v = rng.choice([-3, 0, 1, mx // 2, mx - 1, mx, mx + 5, rng.randint(0, mx)])
             w = rng.choice([None, None, 1, cols, max(1, cols // 2), rng.randint(1, cols)])
             label = rng.choice([None, None, "L", "Vol", "x" * 3])
-            ops.append(("prog", r, v, mx, w, rng.choice(STYLES), label))
+            ops.append(("prog", r, v, mx, w, rng.choice([str, str, str.capitalize, str.upper])(rng.choice(STYLES)), label))
         elif k in ("bl", "disp"):
             ops.append((k, rng.random() < 0.5))
         elif k == "bri":
@@ -87,11 +87,11 @@ def build(cols, rows, i2c, ops):
         if k == "wr":
             _, c, r, t, clear, al, var = op
             body.append(f"lcd.write({c}, {r}, {s(t, var)}, clear_row={clear}, align={al!r})")
-            reqs.append(f"wr {c} {r} {H(t) if t else '-'} {T(clear)} {al}")
+            reqs.append(f"wr {c} {r} {H(t) if t else '-'} {T(clear)} {al.lower()}")
         elif k == "ln":
             _, r, t, al, clear, var = op
             body.append(f"lcd.line({r}, {s(t, var)}, align={al!r}, clear_row={clear})")
-            reqs.append(f"ln {r} {H(t) if t else '-'} {al} {T(clear)}")
+            reqs.append(f"ln {r} {H(t) if t else '-'} {al.lower()} {T(clear)}")
         elif k == "msg":
             _, top, bottom, ta, ba, clear = op
             args = []
@@ -102,7 +102,7 @@ def build(cols, rows, i2c, ops):
             args += [f"top_align={ta!r}", f"bottom_align={ba!r}", f"clear_rows={clear}"]
             body.append(f"lcd.message({', '.join(args)})")
             hx = lambda t: "-" if t is None else ("x" if t == "" else hexs(t))
-            reqs.append(f"msg {hx(top)} {hx(bottom)} {ta} {ba} {T(clear)}")
+            reqs.append(f"msg {hx(top)} {hx(bottom)} {ta.lower()} {ba.lower()} {T(clear)}")
         elif k == "clr":
             body.append("lcd.clear()")
             reqs.append("clr")
@@ -110,7 +110,7 @@ def build(cols, rows, i2c, ops):
             _, r, v, mx, w, style, label = op
             extra = ("" if w is None else f", width={w}") + f", style={style!r}" + ("" if label is None else f", label={label!r}")
             body.append(f"lcd.progress({r}, {v}, {mx}{extra})")
-            reqs.append(f"prog {r} {v} {mx} {'-' if w is None else w} {style} {'-' if not label else hexs(label)}")
+            reqs.append(f"prog {r} {v} {mx} {'-' if w is None else w} {style.lower()} {'-' if not label else hexs(label)}")
         elif k in ("bl", "disp", "bri"):
             # every second such call passes its argument through a variable (the non-literal emission path)
             arg = repr(op[1])
@@ -335,7 +335,7 @@ def _merge_prints(prints):
 
 def check_progress(ctx, op, cols, impl_cells, host_cells, rp):
     _, r, v, mx, w, style, label = op
-    fillc = {"block": "@", "hash": "#", "pipe": "|", "dot": "."}[style]
+    fillc = {"block": "@", "hash": "#", "pipe": "|", "dot": "."}[style.lower()]
     frow = bytes.fromhex(impl_cells[1:]).decode().split("\n")[r]
     hrow = bytes.fromhex(host_cells[1:]).decode().split("\n")[r]
     off = (len(label) + 1) if label else 0
